@@ -86,6 +86,25 @@ Definition spec_op_writes (o : orient) (op : pop) : list wr :=
   | _ => []
   end.
 
+(* Evaluation-friendly variant used by the correspondence check: rows that lie wholly behind the end of
+   the colour stream write nothing, so they need not be walked (a 40 000-row rectangle with a 50-colour
+   stream is 1 row of work). Proved equal to spec_fill_contig in Proofs/SpecFastP.v. *)
+Definition spec_fill_contig_fast (o : orient) (r : rect) (cs : list Z) : list wr :=
+  let vx0 := clip_lo (rx r) in let vx1 := clip_hi (rx r) (rw r) (lw_of p o) in
+  let vy0 := clip_lo (ry r) in let vy1 := clip_hi (ry r) (rh r) (lh_of p o) in
+  if (vx0 <? vx1) && (vy0 <? vy1) then
+    let cs' := firstnZ (rw r * rh r) cs in
+    let rows := Z.min (vy1 - vy0) (Z.of_nat (length cs') / rw r + 2) in
+    contig_rows o r vx0 vx1 vy0 (Z.to_nat rows) cs'
+  else [].
+
+Definition spec_op_writes_fast (o : orient) (op : pop) : list wr :=
+  match op with
+  | PFillContig r cs => spec_fill_contig_fast o r cs
+  | PFillContigGen r n => spec_fill_contig_fast o r (gen_colors n)
+  | _ => spec_op_writes o op
+  end.
+
 Definition spec_op_orient (o : orient) (op : pop) : orient :=
   match op with PSetOrient o' => o' | _ => o end.
 
